@@ -22,6 +22,14 @@ register("C13", "TLA+ (PlusCal) model of the task/result queue protocol checked 
          "Trusted: TLC, the PlusCal translation, the logging queue.Queue subclass substituted in the harness process (test double), CPython's queue/threading. Process back-end is observed only through outcomes. Bounded: task/worker counts as stated in the evidence.",
          "DESIGN.md section 4 C13")
 
+register("C01", "TLA+ model of the problem-function evaluation variants (key computation, rounding, lookup, compute, store) checked by TLC; transition tour and simulated histories replayed on real OptimizationProblems, comparing returns, database and original-call logs with the TLC states",
+         "TLC checks Faithful/JacCoords/Recorded/Memo/append-only keys on every history of the bounded model over 16 preprocessing configurations x a catalogue of 9 design spaces x linear and quadratic functions; every transition of the dumped graphs (plus simulated deeper histories) is executed on a real OptimizationProblem with call-logging functions and the return values, Jacobians, whole database (key order, names, values) and original-call logs are compared exactly with the state TLC computed.",
+         "Trusted: TLC; the exact slice (dyadic bounds/points, integer coefficients) on which doubles are exact; harness MDOFunctions. Finite-difference derivatives only for key/memoisation clauses. Bounded: <=3 request points, dimension <=3.",
+         "DESIGN.md section 4 C01, 9.4")
+register("C02", "TLA+ abstract DesignSpace + implementation-shaped refinement (caches, index map, validity flags) checked by TLC incl. refinement; transition tour of the Impl graph and simulated histories replayed on a real DesignSpace, all public views compared with the View record TLC computes",
+         "TLC checks the algebra of views (normalisation bijection, gradient scaling, membership/projection, lossless conversions, index partition) on every reachable abstract state and the coherence of every cached/derived variable of the implementation-shaped module (with the refinement mapping); every transition of the bounded Impl graph is executed on a real DesignSpace and ~25 public views are compared exactly with TLC's values after each step; the rules 'as coded before the fixes' are refuted by TLC on every run (non-vacuity).",
+         "Trusted: TLC; eighths lattice with power-of-two widths (exact in doubles); projection through public accessors on deep copies. Dict key order and dtypes are not compared. Bounded: <=3 variables, sizes<=3, depth 4-5 (+ depth-12 simulations).",
+         "DESIGN.md section 4 C02, 9.4")
 register("C12", "TLA+ crash/restart model of the history backup checked by TLC (every crash point, both backup modes, repeated crashes); BackupTrace.tla validates recorded scenario traces and predicts the file at every discipline execution; children killed in exactly those executions and restarted",
          "Exhaustive model checking of the backup protocol (store -> listeners -> export, crash only while a discipline executes, restart from the file) for bounded runs, plus conformance: traces of real MDO/DOE scenarios are validated by the trace specification, which also predicts the backup file content at every discipline execution; a child process is killed inside that execution and the real HDF5 file must load and equal the prediction (names and values); the restarted child is traced and validated again (no rework, loaded entries kept, same history and optimum when replay is exact), including a second crash on a file that already holds earlier data.",
          "Trusted: TLC, h5py durability of completed writes, os._exit as the crash model (inside Discipline._run only). Restart uses load=True and reset_iteration_counters=False. An existing file with neither load nor erase is outside the documented usage and not exercised. eachIter exactness is at the option's granularity (DESIGN.md C12 note).",
